@@ -170,6 +170,9 @@ def beh_mask(r):
 def gen_term_case(r, idx, wild=False, nops=None, kinds=None):
     lines = ["CASE %d" % idx, "T 0 new %d" % beh_mask(r)]
     w, h = r.rng(1, 9), r.rng(1, 5)
+    long = nops is None and r.chance(1, 30)
+    if long:
+        w, h = r.pick([80, 132, 255, 256, 300]), r.pick([24, 50, 255, 256])
     if not r.chance(1, 8):
         lines.append("T 0 size %d %d" % (w, h))
     else:
@@ -185,6 +188,8 @@ def gen_term_case(r, idx, wild=False, nops=None, kinds=None):
                 cur = (cur[0] + 1, cur[1])
         elif k < 13:
             m = r.rng(0, 5)
+            if long and r.chance(1, 2):
+                m = r.pick([31, 32, 33, 63, 64, 65, 127, 128, 129, 200])
             lines.append("T 0 str %d" % m + "".join(" " + es.next() for _ in range(m)))
             if cur is not None:
                 cur = (cur[0] + m, cur[1])
@@ -229,7 +234,8 @@ def gen_term_case(r, idx, wild=False, nops=None, kinds=None):
         elif k < 30:
             lines.append("T 0 buf %d" % r.below(2))
         elif k < 31:
-            t = [r.rng(0x20, 0x7E) if r.chance(3, 4) else r.rng(0xA0, 0xFF) for _ in range(r.below(8))]
+            t = [r.rng(0x20, 0x7E) if r.chance(3, 4) else r.rng(0xA0, 0xFF)
+                 for _ in range(r.pick([63, 64, 65, 255, 256, 257, 1000]) if long else r.below(8))]
             if wild and r.chance(1, 2):
                 t = [r.below(256) for _ in range(r.below(5))]
             lines.append("T 0 title " + hexs(t))
@@ -253,6 +259,8 @@ def gen_term_case(r, idx, wild=False, nops=None, kinds=None):
 def gen_screen_case(r, idx, wild=False):
     lines = ["CASE %d" % idx, "T 0 new %d" % beh_mask(r), "S 0 new 0"]
     w, h = r.rng(1, 6), r.rng(1, 4)
+    if r.chance(1, 40):
+        w, h = r.pick([16, 17, 32, 33, 64, 65, 80]), r.pick([1, 2, 8, 9, 16, 17, 24])
     if r.chance(1, 3):
         # the terminal has already been used
         lines.append("T 0 size %d %d" % (w, h))
@@ -304,6 +312,9 @@ def gen_canvas_case(r, idx, exhaustive=None):
     else:
         w, h = r.below(7), r.below(6)
         w2, h2 = r.below(8), r.below(7)
+        if r.chance(1, 40):
+            w, h = r.pick([16, 17, 32, 33, 64, 65]), r.pick([1, 2, 16, 17])
+            w2, h2 = r.pick([w, 15, 16, 33, 64, 70]), r.pick([h, 1, 3, 16, 18])
     lines.append("K 0 new %d %d" % (w, h))
     n = 0
     for y in range(h):
@@ -474,8 +485,9 @@ def last_bare(items):
 def gen_items_case(r, idx):
     lines = ["CASE %d" % idx, "T 0 new %d" % beh_mask(r), "T 0 arm"]
     pb = None
+    long = r.chance(1, 25)
     for _ in range(r.rng(1, 3)):
-        its = gen_items(r, r.rng(1, 8), prev_bare=pb)
+        its = gen_items(r, r.pick([31, 32, 33, 64, 65, 130]) if long else r.rng(1, 8), prev_bare=pb)
         pb = last_bare(its)
         lines.append("T 0 items " + " ".join(its))
     lines.append("END")
@@ -487,6 +499,32 @@ BYTE_CLASSES = [27, 27, 27, 91, 91, 79, 77, 126, 59, 59, 63, 62, 33, 13, 10, 0, 
 
 def wild_bytes(r, n):
     return [r.pick(BYTE_CLASSES) if r.chance(4, 5) else r.below(256) for _ in range(n)]
+
+
+def frag_bytes(r):
+    """one control-sequence-shaped fragment: an introducer, perhaps a private
+    marker, parameters, and one of the ways a sequence can end (a final byte,
+    a mouse report, a cut-off report, an interrupting ESC, nothing).  Aimed at
+    state a parser might carry from one sequence into the next."""
+    out = list(r.pick([[27, 91], [27, 91], [27, 27, 91], [155], [27, 79], [143], [27, 63], [27, 80]]))
+    if r.chance(1, 4):
+        out.append(r.pick([63, 62, 33, 61]))
+    for _ in range(r.pick([0, 1, 1, 2, 3])):
+        out += [ord(c) for c in str(r.pick([0, 1, 2, 5, 6, 11, 15, 24, 35, 200, r.below(100)]))]
+        if r.chance(1, 2):
+            out.append(59)
+    k = r.below(8)
+    if k < 2:
+        out.append(r.pick([65, 66, 67, 68, 70, 72, 80, 90, 104, 108, 109, 82, 116]))
+    elif k == 2:
+        out.append(126)
+    elif k < 5:
+        out += [77, 32 + r.below(100), 33 + r.below(200), 33 + r.below(200)]
+    elif k == 5:
+        out += [77] + [33 + r.below(90) for _ in range(r.below(3))]
+    elif k == 6:
+        out.append(27)
+    return out
 
 
 def partition(r, bs, mode):
@@ -511,12 +549,39 @@ def gen_chunks_case(r, idx, item_stream=None):
     """the same byte stream delivered to several terminals under different
     partitions; the stream is random bytes aimed at the parser's classes"""
     lines = ["CASE %d" % idx]
-    bs = wild_bytes(r, r.rng(1, 24))
+    long = r.chance(1, 6)
+    if long:
+        # a long stream (a paste, key repeat, mouse drag): many tokens in one delivery
+        bs = []
+        piece = r.pick([0, 1, 2, 3, 4, 5, 5, 5])
+        for _ in range(r.pick([15, 16, 17, 31, 32, 33, 40, 63, 64, 65, 100, 128, 129, 257])):
+            k = piece if piece < 5 else r.below(5)
+            if k == 0:
+                bs += [r.rng(32, 126)]
+            elif k == 1:
+                bs += [27, 91, r.pick([65, 66, 67, 68])]
+            elif k == 2:
+                bs += [27, 91, 77, 32 + r.below(4), r.rng(33, 100), r.rng(33, 100)]
+            elif k == 3:
+                bs += [27, 91] + [ord(c) for c in "%d;%d~" % (r.pick(KEYPAD), r.rng(1, 8))]
+            else:
+                bs += r.pick([[13, 10], [13], [10], [27, 79, 80], [9], [127]])
+    elif r.chance(1, 3):
+        bs = []
+        for _ in range(r.rng(2, 4)):
+            bs += frag_bytes(r) if r.chance(3, 4) else wild_bytes(r, r.rng(1, 4))
+    else:
+        bs = wild_bytes(r, r.rng(1, 24))
     for tid in range(4):
         lines.append("T %d new 0" % tid)
         lines.append("T %d arm" % tid)
     for tid in range(4):
-        for chunk in partition(r, bs, tid if tid < 2 else 2):
+        if long and tid >= 2:
+            k = r.pick([2, 3, 5, 7, 16, 31, 32, 33, 64, 100, 200])
+            chunks = [bs[i:i + k] for i in range(0, len(bs), k)]
+        else:
+            chunks = partition(r, bs, tid if tid < 2 else 2)
+        for chunk in chunks:
             lines.append("T %d recv %s" % (tid, hexs(chunk)))
     lines.append("END")
     return lines
@@ -526,7 +591,14 @@ def gen_garbage_case(r, idx):
     """arbitrary bytes, then four letters, then well-formed items whose
     decoding must be the fresh-terminal one"""
     lines = ["CASE %d" % idx, "T 0 new 0", "T 0 arm"]
-    g = wild_bytes(r, r.rng(0, 30))
+    if r.chance(1, 2):
+        g = []
+        for _ in range(r.rng(1, 3)):
+            g += frag_bytes(r)
+            if r.chance(1, 3):
+                g += wild_bytes(r, r.rng(1, 3))
+    else:
+        g = wild_bytes(r, r.rng(0, 30))
     lines.append("T 0 recv " + hexs(g))
     letters = [r.pick(list(range(65, 91)) + list(range(97, 123))) for _ in range(4)]
     lines.append("T 0 recv " + hexs(letters))
@@ -607,7 +679,7 @@ def gen_markup_case(r, idx, respell=False):
     """a string of expressible elements, its canonical markup (directives only
     for what differs from the previous element), and the elements expected"""
     lines = ["CASE %d" % idx]
-    n = r.rng(0, 7)
+    n = r.pick([31, 32, 33, 64, 65, 127, 128, 129, 300]) if r.chance(1, 30) else r.rng(0, 7)
     markup, expect = [], []
     cs, fg, bg, inten, ul, neg = 5, ("low", 9), ("low", 9), 0, 0, 0
     prev_utf8 = False
@@ -707,6 +779,8 @@ def gen_keyseq_case(r, idx):
         if r.chance(1, 3):
             # a truncated sequence (digits / separator already received) right before it
             pre = bytes(r.pick([[27, 91], [155], [27, 79]])) + str(r.below(30)).encode() + (b";" if r.chance(1, 2) else b"")
+        elif r.chance(1, 2):
+            pre = bytes(frag_bytes(r))
         lines.append("T 0 recv " + hexs(list(pre + bytes(intro) + body)))
     lines.append("END")
     return lines
@@ -718,6 +792,8 @@ def gen_strings_case(r, idx):
     lines = ["CASE %d" % idx]
 
     def rb(n):
+        if r.chance(1, 30):
+            n = r.pick([15, 16, 17, 22, 23, 24, 31, 32, 33, 255, 256, 257, 1000])   # SSO and buffer boundaries
         return [r.pick([0, 0, 92, 27, 128, 255, r.below(256), r.rng(32, 126)]) for _ in range(n)]
     for _ in range(4):
         k = r.below(5)
@@ -735,6 +811,66 @@ def gen_strings_case(r, idx):
             a = [el(wf_glyph(r), wf_attr(r)) for _ in range(r.below(6))]
             lines.append("M tostring %d %s" % (len(a), " ".join(a)))
     lines.append("END")
+    return lines
+
+
+def gen_show_case(r, idx):
+    """values inserted one after another into one std::ostream: the text of a
+    value must not depend on what was streamed before it"""
+    lines = ["CASE %d" % idx]
+
+    def one():
+        k = r.below(12)
+        if k < 4:
+            return "colour " + " ".join(map(str, wild_colour(r) if r.chance(1, 5) else wf_colour(r)))
+        if k == 4:
+            return "attr " + " ".join(map(str, wild_attr(r) if r.chance(1, 5) else wf_attr(r)))
+        if k == 5:
+            return "cs %d" % r.below(19)
+        if k < 8:
+            return "glyph " + " ".join(map(str, wild_glyph(r) if r.chance(1, 2) else wf_glyph(r)))
+        if k == 8:
+            return "elem " + el(wild_glyph(r) if r.chance(1, 3) else wf_glyph(r), wf_attr(r))
+        if k == 9:
+            n = r.below(4)
+            return "str %d" % n + "".join(" " + el(wf_glyph(r), wf_attr(r)) for _ in range(n))
+        c = lambda: r.pick([0, 1, -1, 9, 10, 15, 16, 255, 256, -2147483648, 2147483647, r.rng(-1000, 1000)])
+        if k == 10:
+            return r.pick(["point", "extent"]) + " %d %d" % (c(), c())
+        return "rect %d %d %d %d" % (c(), c(), c(), c())
+
+    for _ in range(3):
+        vals = [one() for _ in range(r.rng(1, 6))]
+        lines.append("V show %d %s" % (len(vals), " ".join(vals)))
+    lines.append("END")
+    return lines
+
+
+def gen_show_sweep():
+    """every colour of the palette-indexed kinds after every kind of colour, and
+    every (character set, byte) glyph: one case per block"""
+    lines = []
+    cid = 0
+    firsts = [None, (0, 1, 0, 0), (1, 100, 0, 0), (2, 250, 0, 0), (3, 205, 59, 122)]
+    for first in firsts:
+        cid += 1
+        lines.append("CASE %d" % cid)
+        pre = ["colour %d %d %d %d" % first] if first else []
+        for v in range(256):
+            for kind in (1, 2):
+                vals = pre + ["colour %d %d 0 0" % (kind, v)]
+                lines.append("V show %d %s" % (len(vals), " ".join(vals)))
+        for v in range(12):
+            vals = pre + ["colour 0 %d 0 0" % v]
+            lines.append("V show %d %s" % (len(vals), " ".join(vals)))
+        lines.append("END")
+    for cs in range(19):
+        cid += 1
+        lines.append("CASE %d" % cid)
+        for b in range(0, 256, 8):
+            vals = ["glyph %d %d 0 0" % (cs, b + i) for i in range(8)]
+            lines.append("V show 8 " + " ".join(vals))
+        lines.append("END")
     return lines
 
 
